@@ -178,6 +178,17 @@ pub fn soft_fail(f: Failure) -> CaseResult {
     }
 }
 
+/// Loads the known findings of property `id` without a `Ctx` (fuzz targets).
+pub fn load_known(id: &str) {
+    let known: Vec<KnownFinding> = std::fs::read_to_string(format!("{VERIF_DIR}/known_findings.json"))
+        .ok()
+        .and_then(|s| serde_json::from_str::<Value>(&s).ok())
+        .and_then(|v| v.get("findings").cloned())
+        .and_then(|v| serde_json::from_value(v).ok())
+        .unwrap_or_default();
+    *SOFT_KNOWN.write().unwrap() = known.iter().filter(|k| k.property == id).map(|k| (k.clone(), id.to_string())).collect();
+}
+
 /// Whether `sig` is a listed known finding of the running property (false in replay mode).
 pub fn is_known_sig(sig: &str) -> bool {
     SOFT_KNOWN.read().unwrap().iter().any(|(k, id)| k.matches(id, sig))
